@@ -26,8 +26,13 @@ type Op struct {
 	Boxes   [][]string `json:"boxes,omitempty"`   // mailboxes of each new message / of the updated message
 	Target  string     `json:"target,omitempty"`  // marker of the existing message a connector update refers to
 	On      bool       `json:"on,omitempty"`      // SUBSCRIBE (true) / UNSUBSCRIBE (false); STORE +/-
+	// MessagesCreated only: messages the server already has, announced again in the same batch (a re-sync), each with
+	// the mailboxes it is announced in (the ones it is in already, possibly one more)
+	Known      []string   `json:"known,omitempty"`
+	KnownBoxes [][]string `json:"known_boxes,omitempty"`
 	// remote ids, filled in when the operation is generated (the remote side is prepared before the run)
-	RemoteIDs []string `json:"remote_ids,omitempty"`
+	RemoteIDs      []string `json:"remote_ids,omitempty"`
+	KnownRemoteIDs []string `json:"known_remote_ids,omitempty"`
 }
 
 func (o Op) String() string {
@@ -51,6 +56,10 @@ func (o Op) String() string {
 
 		return "UNSUBSCRIBE " + o.Box
 	case "MessagesCreated":
+		if len(o.Known) > 0 {
+			return fmt.Sprintf("connector MessagesCreated %v in %v flags %v, and again the known %v in %v", o.Markers, o.Boxes, o.Flags, o.Known, o.KnownBoxes)
+		}
+
 		return fmt.Sprintf("connector MessagesCreated %v in %v flags %v", o.Markers, o.Boxes, o.Flags)
 	case "MessageUpdated":
 		return fmt.Sprintf("connector MessageUpdated %s -> new literal %s in %v flags %v", o.Target, o.Markers[0], o.Boxes[0], o.Flags)
@@ -381,6 +390,22 @@ func (s *State) apply(o Op) *State {
 	case "MessagesCreated":
 		shared, _ := normFlags(o.Flags)
 
+		// the batch lists the first known message in front of the new ones and further known ones behind them
+		// (buildUpdate); within a mailbox the messages are added in the order of the batch
+		addKnown := func(i int) {
+			// a known message keeps its flags and enters the announced mailboxes it is not in yet
+			// (connector_updates.go applyMessagesCreated: MailboxFilterContains)
+			for _, bn := range o.KnownBoxes[i] {
+				if a.Boxes[bn].index(o.Known[i]) < 0 {
+					a.Boxes[bn].push(o.Known[i], false)
+				}
+			}
+		}
+
+		if len(o.Known) > 0 {
+			addKnown(0)
+		}
+
 		for i, m := range o.Markers {
 			a.Msgs[m] = &sMsg{Marker: m, Flags: append([]string{}, shared...)}
 
@@ -389,6 +414,10 @@ func (s *State) apply(o Op) *State {
 					a.Boxes[bn].push(m, false)
 				}
 			}
+		}
+
+		for i := 1; i < len(o.Known); i++ {
+			addKnown(i)
 		}
 
 	case "MessageUpdated":
